@@ -107,14 +107,22 @@ theorem credited_exactly {s : St} {c r : Nat} {ra : Ra} (hs : Reachable s) (hc :
       (∀ x, getBal ra'.bal x = creditedTo ra.gi.accounts x) ∧
       sumAccs d.gi.accounts = sumAccs ra.gi.accounts ∧
       (∀ t, d.tr = some t → t.amt = sumAccs ra.gi.accounts ∧ t.recv = 0) ∧
-      ra'.md = ra.gi.denom.isSet ∧ ra'.tph = ph ∧ ra'.nOpen = 1 ∧ ra'.gi = ra.gi ∧
+      (ra'.md = (ra.md || ra.gi.denom.isSet) ∧ (ra.gi.denom.isSet = true → ra.md = false ∧ ra'.md = true)) ∧
+      ra'.tph = ph ∧ ra'.nOpen = 1 ∧ ra'.gi = ra.gi ∧
       (∀ alloc st, ra.plan = some (alloc, st) → ra'.plan = some (alloc, true) ∧ creditedTo ra.gi.accounts iroAddr = alloc) := by
   rcases recv_closed_cases hs hc hg h0 ph p with ⟨h1, e, he⟩ | ⟨h1, d, bal', hp, hv, hcr, hra, hpl⟩
   · rw [h1, he] at hok; exact absurd hok (by simp)
   · have hi := (reachable_inv hs).get hg
     have hm := validate_matches hi.wf hv
     have ht := (closed_iff hs hg).1 h0
-    obtain ⟨hbal, hmd, _, _⟩ := hi.closed ht
+    obtain ⟨hbal, _, _, _⟩ := hi.closed ht
+    have hhs : (handshake ra ph p).2 = .ok := by
+      apply Classical.byContradiction
+      intro hne
+      have h' := handshake_err_unchanged hne
+      rw [hra] at h'
+      have h'' := congrArg Ra.nOpen h'
+      simp at h''
     have hid : (handshake ra ph p).1.id = ra.id := by rw [hra]
     have hrid : ra.id = r := (getRa_mem hg).2
     have hget : getRa (step s (.recv c ph p)).1 r = some (handshake ra ph p).1 := by
@@ -132,7 +140,12 @@ theorem credited_exactly {s : St} {c r : Nat} {ra : Ra} (hs : Reachable s) (hc :
       have := hm.2.2.2.2.2
       rw [ht'] at this
       exact ⟨this.2.2.2, this.2.1⟩
-    · rw [hra]; simp [hmd, hm.2.2.1]
+    · refine ⟨by rw [hra]; simp [hm.2.2.1], ?_⟩
+      intro hd
+      have hmd : ra.md = false := by
+        rw [hp] at hhs
+        exact handshake_ok_md hhs (by rw [hm.2.2.1]; exact hd)
+      exact ⟨hmd, by rw [hra]; simp [hm.2.2.1, hd]⟩
     · rw [hra]
     · rw [hra]; simp [h0]
     · rw [hra]
@@ -231,8 +244,10 @@ theorem gi_step (s : St) (op : Op) (r : Nat) (ra : Ra) (hg : getRa s r = some ra
            right; right
            refine ⟨g, ?_⟩
            simp_all)
-  | plan r0 owner alloc dur te =>
+  | plan r0 owner alloc dur te start =>
     simp only [step, stepPlan]
+    split
+    · exact keep
     cases hr0 : getRa s r0 with
     | none => exact keep
     | some ra0 =>
@@ -299,6 +314,51 @@ theorem gi_step (s : St) (op : Op) (r : Nat) (ra : Ra) (hg : getRa s r = some ra
     simp only [step, stepLink2]
     repeat' split
     all_goals exact keep
+  | canon r0 =>
+    simp only [step, stepCanon]
+    cases hr0 : getRa s r0 with
+    | none => exact keep
+    | some ra0 =>
+      simp only
+      repeat' split
+      all_goals first
+        | exact keep
+        | (refine upd r0 ra0 _ hr0 rfl ?_
+           intro hr
+           subst hr
+           rw [hg] at hr0
+           cases hr0
+           left; rfl)
+  | premd r0 =>
+    simp only [step, stepPremd]
+    cases hr0 : getRa s r0 with
+    | none => exact keep
+    | some ra0 =>
+      simp only
+      repeat' split
+      all_goals first
+        | exact keep
+        | (refine upd r0 ra0 _ hr0 rfl ?_
+           intro hr
+           subst hr
+           rw [hg] at hr0
+           cases hr0
+           left; rfl)
+  | chopen r0 via =>
+    simp only [step, stepChopen]
+    cases hr0 : getRa s r0 with
+    | none => exact keep
+    | some ra0 =>
+      simp only
+      repeat' split
+      all_goals first
+        | exact keep
+        | (refine upd r0 ra0 _ hr0 rfl ?_
+           intro hr
+           subst hr
+           rw [hg] at hr0
+           cases hr0
+           left; rfl)
   | plainch => exact keep
   | send c =>
     simp only [step, stepSend]
@@ -312,7 +372,10 @@ theorem gi_step (s : St) (op : Op) (r : Nat) (ra : Ra) (hg : getRa s r = some ra
       obtain ⟨c', k⟩ := ck
       cases k with
       | plain => exact keep
-      | second _ => exact keep
+      | second _ =>
+        simp only
+        repeat' split
+        all_goals exact keep
       | canon r0 =>
         simp only
         cases hr0 : getRa s r0 with
@@ -366,30 +429,54 @@ theorem launched_or_plan_sealed {s : St} {r : Nat} {ra : Ra} (hs : Reachable s) 
 
 /-- **plan_seals_genesis_info_any_trading_flag** — an accepted `MsgCreatePlan` seals the registered
     genesis info whether the plan is created with trading enabled or not (nothing else of the genesis
-    info changes); the pre-launch time is plan start + duration when trading is enabled and block
-    time + 10 years when it is not. -/
+    info changes); the pre-launch time is plan start + duration when trading is enabled — the plan
+    starts at the message's `start_time` when that lies in the future and at the block time otherwise —
+    and block time + 10 years when it is not (then the message carries no start time). -/
 theorem plan_seals_genesis_info_any_trading_flag (s : St) (r : Nat) (owner : Bool) (alloc : Int) (dur : Nat) (te : Bool)
-    (hok : (step s (.plan r owner alloc dur te)).2 = .ok) :
-    ∃ ra ra', getRa s r = some ra ∧ getRa (step s (.plan r owner alloc dur te)).1 r = some ra' ∧
+    (start : Option Nat) (hok : (step s (.plan r owner alloc dur te start)).2 = .ok) :
+    ∃ ra ra', getRa s r = some ra ∧ getRa (step s (.plan r owner alloc dur te start)).1 r = some ra' ∧
       ra'.gi.sealed = true ∧ ra'.gi = { ra.gi with sealed := true } ∧
-      ra'.plan = some (alloc, false) ∧ ra'.te = te ∧
-      ra'.preLaunch = some (if te then s.now + dur else s.now + tenYears) := by
-  obtain ⟨ra, hg, _, _, _, _, he⟩ := stepPlan_ok (s := s) hok
+      ra'.plan = some (alloc, false) ∧ ra'.te = te ∧ (te = false → start = none) ∧
+      ra'.pstart = (if te then some (planStart s.now start) else none) ∧
+      ra'.preLaunch = some (if te then planStart s.now start + dur else s.now + tenYears) := by
+  obtain ⟨ra, hg, _, _, _, _, hst, he⟩ := stepPlan_ok (s := s) hok
   have hrid : ra.id = r := (getRa_mem hg).2
-  refine ⟨ra, planned s.now ra alloc dur te, hg, ?_, rfl, rfl, rfl, rfl, ?_⟩
-  · show getRa (stepPlan s r owner alloc dur te).1 r = _
+  refine ⟨ra, planned s.now ra alloc dur te start, hg, ?_, rfl, rfl, rfl, rfl, ?_, rfl, ?_⟩
+  · show getRa (stepPlan s r owner alloc dur te start).1 r = _
     rw [he]
-    have := getRa_setRa_self (s := s) (x := planned s.now ra alloc dur te) (ra := ra) (by show getRa s ra.id = _; rw [hrid]; exact hg)
-    have hid : (planned s.now ra alloc dur te).id = r := hrid
+    have := getRa_setRa_self (s := s) (x := planned s.now ra alloc dur te start) (ra := ra) (by show getRa s ra.id = _; rw [hrid]; exact hg)
+    have hid : (planned s.now ra alloc dur te start).id = r := hrid
     rw [hid] at this
     exact this
+  · intro hte
+    cases start with
+    | none => rfl
+    | some t => have := hst rfl; rw [hte] at this; exact absurd this (by simp)
   · simp only [planned, planPreLaunch]
 
+/-- the start of trading is never before the block time, is the block time when the message carries no
+    start time or a past one, and the requested time when that lies in the future -/
+theorem planStart_spec (now : Nat) (start : Option Nat) :
+    now ≤ planStart now start ∧ (start = none → planStart now start = now) ∧
+    (∀ t, start = some t → planStart now start = max now t) := by
+  refine ⟨?_, ?_, ?_⟩
+  · unfold planStart; split <;> (try split) <;> omega
+  · intro h; subst h; rfl
+  · intro t h; subst h; unfold planStart; simp only; split <;> omega
+
+/-- a start time on a plan whose trading is not enabled at creation is refused (`ValidateBasic`) -/
+theorem plan_start_needs_trading (s : St) (r : Nat) (owner : Bool) (alloc : Int) (dur : Nat) (t : Nat) :
+    step s (.plan r owner alloc dur false (some t)) = (s, .err) := by
+  simp [step, stepPlan]
+
 /-- only the owner creates a plan: a `MsgCreatePlan` by anybody else is refused without any change -/
-theorem plan_owner_only (s : St) (r : Nat) (alloc : Int) (dur : Nat) (te : Bool) :
-    step s (.plan r false alloc dur te) = (s, .err) := by
+theorem plan_owner_only (s : St) (r : Nat) (alloc : Int) (dur : Nat) (te : Bool) (start : Option Nat) :
+    step s (.plan r false alloc dur te start) = (s, .err) := by
   simp only [step, stepPlan]
-  split <;> rfl
+  repeat' split
+  all_goals first
+    | rfl
+    | simp_all
 
 /-- **enable_trading_owner_only** — `MsgEnableTrading` by anybody but the rollapp's owner is refused and
     changes nothing … -/
@@ -517,16 +604,25 @@ def giIro : GInfo := { checksum := 1, pfx := 1, denom := ⟨1, 11, 18⟩, supply
                        accounts := [⟨1, 10⟩, ⟨iroAddr, 11000000000000000000⟩], sealed := false }
 def pktIro : Pkt := .gb { gi := giIro, md := ⟨1, [(1, 0), (11, 18)], true, true⟩, tr := some ⟨1, 11000000000000000010, true, 0, true⟩ }
 /-- create, 100 s later the owner creates the plan with trading DISABLED -/
-def opsTD : List Op := [.create 0 (some giIro), .tick 100, .plan 0 true 11000000000000000000 600 false]
+def opsTD : List Op := [.create 0 (some giIro), .tick 100, .plan 0 true 11000000000000000000 600 false none]
 theorem opsTD_ok : AllPhOk opsTD := by intro op hop; simp [opsTD] at hop; rcases hop with rfl | rfl | rfl <;> trivial
 
 /-- the plan is accepted with either flag (hypothesis of `plan_seals_genesis_info_any_trading_flag`) and
     seals; pre-launch time: 100 + 600 with trading enabled, 100 + 10 years without -/
-example : ∀ te, (step (run init [.create 0 (some giIro), .tick 100]) (.plan 0 true 11000000000000000000 600 te)).2 = .ok := by decide
+example : ∀ te, (step (run init [.create 0 (some giIro), .tick 100]) (.plan 0 true 11000000000000000000 600 te none)).2 = .ok := by decide
 example : (getRa (run init opsTD) 0).map (fun ra => (ra.gi.sealed, ra.plan.isSome, ra.te, ra.pstart, ra.preLaunch))
     = some (true, true, false, (none : Option Nat), some 315360100) := by decide
-example : ((getRa (step (run init [.create 0 (some giIro), .tick 100]) (.plan 0 true 11000000000000000000 600 true)).1 0).map
+example : ((getRa (step (run init [.create 0 (some giIro), .tick 100]) (.plan 0 true 11000000000000000000 600 true none)).1 0).map
     (fun ra => (ra.gi.sealed, ra.te, ra.pstart, ra.preLaunch))) = some (true, true, some 100, some 700) := by decide
+/-- a start time in the future (100 s block time, start at 400): trading starts at 400, pre-launch time 1000; a past
+    one (start at 40) is moved up to the block time -/
+example : ((getRa (step (run init [.create 0 (some giIro), .tick 100]) (.plan 0 true 11000000000000000000 600 true (some 400))).1 0).map
+    (fun ra => (ra.gi.sealed, ra.te, ra.pstart, ra.preLaunch))) = some (true, true, some 400, some 1000) := by decide
+example : ((getRa (step (run init [.create 0 (some giIro), .tick 100]) (.plan 0 true 11000000000000000000 600 true (some 40))).1 0).map
+    (fun ra => (ra.pstart, ra.preLaunch))) = some (some 100, some 700) := by decide
+/-- … and the sequencer cannot launch before start + duration -/
+example : (step (run init [.create 0 (some giIro), .tick 100, .plan 0 true 11000000000000000000 600 true (some 400), .tick 700]) (.seq 0)).2 = .err := by decide
+example : (step (run init [.create 0 (some giIro), .tick 100, .plan 0 true 11000000000000000000 600 true (some 400), .tick 900]) (.seq 0)).2 = .ok := by decide
 /-- the state with a trading-disabled plan is reachable (hypotheses of `trading_disabled_plan_frozen`) -/
 example : Reachable (run init opsTD) ∧ (getRa (run init opsTD) 0).map (fun ra => (ra.plan.isSome, ra.te)) = some (true, false) :=
   ⟨⟨opsTD, opsTD_ok, rfl⟩, by decide⟩
